@@ -48,6 +48,17 @@ def main():
             return 1
         except core.Machinery:
             print("4. missing field: the log is not consumed -> machinery failure (exit 2), not a verdict")
+        # 5. the text syntax of feature structures (clause from_text.state of TraceFCFG)
+        h = [["node", ["h"]], ["leaf", ["h", "f"], "1"], ["share", ["g"], ["h", "f"]]]
+        fev = core.replay_pool("c18", [dict(kind="unify", ha=h, hb=h, family="selftest", cid="f0")], os.path.join(work, "r5"))
+        v, _ = core.judge("TraceFCFG", fev, os.path.join(work, "j5"))
+        assert v == {}, v
+        bad = copy.deepcopy(fev)
+        ft = next(e for e in bad if e["op"] == "fs_from_text")
+        ft["F"]["same"] = [p for p in ft["F"]["same"] if p[0] == p[1]]      # the tag "(1)" forgotten outside the bracket
+        v, _ = core.judge("TraceFCFG", bad, os.path.join(work, "j6"))
+        assert v.get(ft["id"]) == [("from_text.state", "FAIL")], v
+        print("5. from_text event %r: intact accepted, sharing removed from the record -> clause from_text.state" % ft["text"])
         print("selftest ok")
         return 0
     finally:
